@@ -85,48 +85,37 @@ structure S1 (d : Disk) (lL lR : Log) : Prop where
   lCnt : lL.htlcCounter = d.rc.cm.ourHtlc
   lAdds : ∀ i, hasAdd (restoreBaseLogs d).1.entries i → hasAdd lL.entries i
 
+theorem isResTy_iff (t : ETy) : isResTy t = true ↔ (t ≠ .add ∧ t ≠ .feeUpd) := by
+  cases t <;> simp [isResTy]
+
+theorem rulPd_ok (rh : Nat) (lR : Log) (u : Entry) (hna : u.ty ≠ .add)
+    (hres : isResTy u.ty = true → hasAdd lR.entries u.parent) : ∃ pd, rulPd rh lR u = .ok pd := by
+  unfold rulPd
+  have h1 : (u.ty == ETy.add) = false := by simpa using hna
+  simp only [h1, Bool.false_eq_true, if_false]
+  by_cases hf : u.ty = .feeUpd
+  · simp only [hf, beq_self_eq_true, if_true]; exact ⟨_, rfl⟩
+  · have h2 : (u.ty == ETy.feeUpd) = false := by simpa using hf
+    obtain ⟨og, hog⟩ := lookup_of_hasAdd (hres ((isResTy_iff _).2 ⟨hna, hf⟩))
+    simp only [h2, Bool.false_eq_true, if_false, hog]
+    exact ⟨_, rfl⟩
+
 theorem rulStep_ok (d : Disk) (rh : Nat) {lL lR : Log} (h : S1 d lL lR) (u : Entry)
     (hu : (u.ty != .add && (!isResTy u.ty || (incomingIdx d.lc).contains u.parent)) = true) :
     ∃ lL' lR', restoreRulStep rh (.ok (lL, lR)) u = .ok (lL', lR') ∧ S1 d lL' lR' := by
   simp only [Bool.and_eq_true, bne_iff_ne, ne_eq, Bool.or_eq_true, Bool.not_eq_true'] at hu
   obtain ⟨hna, hres⟩ := hu
+  have hres' : isResTy u.ty = true → hasAdd lR.entries u.parent := by
+    intro hr
+    rcases hres with hres | hres
+    · rw [hr] at hres; cases hres
+    · rw [h.rEntries]; exact base_hasAddR d hres
+  obtain ⟨pd, hpd⟩ := rulPd_ok rh lR u hna hres'
   unfold restoreRulStep
-  simp only
-  cases hty : u.ty with
-  | add => exact absurd hty hna
-  | feeUpd =>
-    simp only
-    exact ⟨_, _, rfl, ⟨h.rEntries, h.rIdx, h.lIdx, h.lCnt, fun i hi => hasAdd_append _ (h.lAdds i hi)⟩⟩
-  | settle =>
-    have hp : (incomingIdx d.lc).contains u.parent = true := by
-      rcases hres with hres | hres
-      · simp [isResTy, hty] at hres
-      · exact hres
-    have ha := base_hasAddR d hp
-    rw [← h.rEntries] at ha
-    obtain ⟨og, hog⟩ := lookup_of_hasAdd ha
-    simp only [hog]
-    exact ⟨_, _, rfl, ⟨h.rEntries, h.rIdx, h.lIdx, h.lCnt, fun i hi => hasAdd_append _ (h.lAdds i hi)⟩⟩
-  | fail =>
-    have hp : (incomingIdx d.lc).contains u.parent = true := by
-      rcases hres with hres | hres
-      · simp [isResTy, hty] at hres
-      · exact hres
-    have ha := base_hasAddR d hp
-    rw [← h.rEntries] at ha
-    obtain ⟨og, hog⟩ := lookup_of_hasAdd ha
-    simp only [hog]
-    exact ⟨_, _, rfl, ⟨h.rEntries, h.rIdx, h.lIdx, h.lCnt, fun i hi => hasAdd_append _ (h.lAdds i hi)⟩⟩
-  | malformed =>
-    have hp : (incomingIdx d.lc).contains u.parent = true := by
-      rcases hres with hres | hres
-      · simp [isResTy, hty] at hres
-      · exact hres
-    have ha := base_hasAddR d hp
-    rw [← h.rEntries] at ha
-    obtain ⟨og, hog⟩ := lookup_of_hasAdd ha
-    simp only [hog]
-    exact ⟨_, _, rfl, ⟨h.rEntries, h.rIdx, h.lIdx, h.lCnt, fun i hi => hasAdd_append _ (h.lAdds i hi)⟩⟩
+  simp only [hpd]
+  split
+  · exact ⟨_, _, rfl, ⟨h.rEntries, h.rIdx, h.lIdx, h.lCnt, fun i hi => hasAdd_append _ (h.lAdds i hi)⟩⟩
+  · exact ⟨_, _, rfl, ⟨h.rEntries, h.rIdx, h.lIdx, h.lCnt, fun i hi => hasAdd_append _ (h.lAdds i hi)⟩⟩
 
 theorem rulFold_ok (d : Disk) (rh : Nat) (us : List Entry) {lL lR : Log} (h : S1 d lL lR)
     (hu : us.all (fun u => u.ty != .add && (!isResTy u.ty || (incomingIdx d.lc).contains u.parent)) = true) :
@@ -135,7 +124,7 @@ theorem rulFold_ok (d : Disk) (rh : Nat) (us : List Entry) {lL lR : Log} (h : S1
   | nil => exact ⟨lL, lR, rfl, h⟩
   | cons u r ih =>
     simp only [List.all_cons, Bool.and_eq_true] at hu
-    obtain ⟨l1, r1, e1, h1⟩ := rulStep_ok d rh h u hu.1
+    obtain ⟨l1, r1, e1, h1⟩ := rulStep_ok d rh h u (by simpa using hu.1)
     simp only [List.foldl_cons, e1]
     exact ih h1 hu.2
 
@@ -171,6 +160,43 @@ theorem s2_snoc_nonadd {d : Disk} {done : List Entry} {lL lR lR' : Log} (h : S2 
       · exact Or.inr ⟨a, ha, h1, h2⟩
       · exact absurd h1 hu
 
+theorem fixFeeIdx_not_fee (lL : Log) (pd : Entry) (h : pd.ty ≠ .feeUpd) : fixFeeIdx lL pd = pd := by
+  unfold fixFeeIdx
+  have : (pd.ty == ETy.feeUpd) = false := by simpa using h
+  simp [this]
+
+theorem fixFeeIdx_ty (lL : Log) (pd : Entry) : (fixFeeIdx lL pd).ty = pd.ty := by
+  unfold fixFeeIdx; split <;> rfl
+
+theorem fixFeeIdx_idx (lL : Log) (pd : Entry) (hf : pd.ty = .feeUpd)
+    (h : pd.logIndex = lL.logIndex ∨ pd.logIndex = 0) : (fixFeeIdx lL pd).logIndex = lL.logIndex := by
+  unfold fixFeeIdx
+  split
+  · rfl
+  · rename_i hc
+    rcases h with h | h
+    · exact h
+    · simp only [hf, beq_self_eq_true, Bool.true_and, Bool.and_eq_true, beq_iff_eq, decide_eq_true_eq,
+        not_and, Nat.not_lt, Nat.le_zero_eq] at hc
+      rw [h]; exact (hc h).symm
+
+theorem pendPd_ok (ph : Nat) (lR : Log) (u : Entry)
+    (hres : isResTy u.ty = true → hasAdd lR.entries u.parent) :
+    ∃ pd, pendPd ph lR u = .ok pd ∧ pd.ty = u.ty ∧ pd.logIndex = u.logIndex ∧ (u.ty = .add → pd.htlcIndex = u.htlcIndex) := by
+  unfold pendPd
+  by_cases ha : u.ty = .add
+  · simp only [ha, beq_self_eq_true, if_true]
+    exact ⟨_, rfl, rfl, rfl, fun _ => rfl⟩
+  · have h1 : (u.ty == ETy.add) = false := by simpa using ha
+    simp only [h1, Bool.false_eq_true, if_false]
+    by_cases hf : u.ty = .feeUpd
+    · simp only [hf, beq_self_eq_true, if_true]
+      exact ⟨_, rfl, rfl, rfl, fun h => by cases h⟩
+    · have h2 : (u.ty == ETy.feeUpd) = false := by simpa using hf
+      obtain ⟨og, hog⟩ := lookup_of_hasAdd (hres ((isResTy_iff _).2 ⟨ha, hf⟩))
+      simp only [h2, Bool.false_eq_true, if_false, hog]
+      exact ⟨_, rfl, rfl, rfl, fun h => absurd h ha⟩
+
 theorem pendFold_ok (d : Disk) (ph : Nat) (us : List Entry) :
     ∀ (done : List Entry) (lL lR : Log), S2 d done lL lR →
       pendOK (incomingIdx d.lc) (d.rc.cm.ourMsg + done.length) (d.rc.cm.ourHtlc + addCount done) us = true →
@@ -182,116 +208,70 @@ theorem pendFold_ok (d : Disk) (ph : Nat) (us : List Entry) :
     simp only [pendOK, Bool.and_eq_true, Bool.or_eq_true, beq_iff_eq, bne_iff_ne, ne_eq,
       Bool.not_eq_true'] at hp
     obtain ⟨⟨⟨hli, hadd⟩, hres⟩, hrest⟩ := hp
-    -- one step
+    have hres' : isResTy u.ty = true → hasAdd lR.entries u.parent := by
+      intro hr
+      rcases hres with hres | hres
+      · rw [hr] at hres; cases hres
+      · rw [h.rEntries]; exact base_hasAddR d hres
+    obtain ⟨pd, hpd, hty, hidx, hhi⟩ := pendPd_ok ph lR u hres'
     have hstep : ∃ lL1 lR1, restorePendStep ph (.ok (lL, lR)) u = .ok (lL1, lR1) ∧ S2 d (done ++ [u]) lL1 lR1 := by
       unfold restorePendStep
-      simp only
-      cases hty : u.ty with
-      | add =>
-        have hc : u.htlcIndex = d.rc.cm.ourHtlc + addCount done := by
-          rcases hadd with hadd | hadd
-          · exact absurd hty hadd
-          · exact hadd
-        have hl : u.logIndex = lL.logIndex := by
+      simp only [hpd]
+      unfold pendAppend
+      by_cases ha : u.ty = .add
+      · have hne : pd.ty ≠ .feeUpd := by rw [hty, ha]; decide
+        rw [fixFeeIdx_not_fee lL pd hne]
+        have hl : pd.logIndex = lL.logIndex := by
+          rw [hidx]
           rcases hli with hli | ⟨hf, _⟩
           · rw [hli, h.lIdx]
-          · rw [hty] at hf; cases hf
-        simp only [hty, show (ETy.add == ETy.feeUpd) = false from rfl, Bool.false_and, if_false,
-          hl, bne_self_eq_false, hc, h.lCnt]
+          · rw [ha] at hf; cases hf
+        have hc : pd.htlcIndex = lL.htlcCounter := by
+          rw [hhi ha, h.lCnt]
+          rcases hadd with hadd | hadd
+          · exact absurd ha hadd
+          · exact hadd
+        simp only [hl, bne_self_eq_false, Bool.false_eq_true, if_false, hty, ha, beq_self_eq_true, if_true, hc]
         refine ⟨_, _, rfl, ⟨h.rEntries, h.rIdx, ?_, ?_, ?_⟩⟩
         · simp only [Log.appendHtlc, h.lIdx, List.length_append, List.length_singleton]; omega
-        · simp only [Log.appendHtlc, h.lCnt, addCount, List.filter_append, List.filter_cons, hty,
+        · simp only [Log.appendHtlc, h.lCnt, addCount, List.filter_append, List.filter_cons, ha,
             beq_self_eq_true, if_true, List.filter_nil, List.length_append, List.length_singleton]
+          omega
         · intro i hi
           simp only [Log.appendHtlc]
-          rcases hi with hi | ⟨a, ha, h1, h2⟩
+          rcases hi with hi | ⟨a, ha', h1, h2⟩
           · exact hasAdd_append _ (h.lAdds i (Or.inl hi))
-          · simp only [List.mem_append, List.mem_singleton] at ha
-            rcases ha with ha | rfl
-            · exact hasAdd_append _ (h.lAdds i (Or.inr ⟨a, ha, h1, h2⟩))
-            · refine ⟨_, List.mem_append_right _ (List.mem_singleton.mpr rfl), ?_, ?_⟩
-              · simp [Entry.isAdd, hty]
-              · exact h2
-      | feeUpd =>
-        simp only
-        have hidx : (if (({ ty := ETy.feeUpd, amt := u.amt, logIndex := u.logIndex, addR := ph, rmvR := ph } : Entry).ty == ETy.feeUpd &&
-              ({ ty := ETy.feeUpd, amt := u.amt, logIndex := u.logIndex, addR := ph, rmvR := ph } : Entry).logIndex == 0 &&
-              decide (lL.logIndex > 0)) = true
-            then { ({ ty := ETy.feeUpd, amt := u.amt, logIndex := u.logIndex, addR := ph, rmvR := ph } : Entry) with logIndex := lL.logIndex }
-            else ({ ty := ETy.feeUpd, amt := u.amt, logIndex := u.logIndex, addR := ph, rmvR := ph } : Entry)).logIndex = lL.logIndex := by
-          split
-          · rfl
-          · rename_i hc
+          · simp only [List.mem_append, List.mem_singleton] at ha'
+            rcases ha' with ha' | rfl
+            · exact hasAdd_append _ (h.lAdds i (Or.inr ⟨a, ha', h1, h2⟩))
+            · refine ⟨pd, List.mem_append_right _ (List.mem_singleton.mpr rfl), ?_, ?_⟩
+              · simp [Entry.isAdd, hty, ha]
+              · rw [hhi ha]; exact h2
+      · have hna : ((fixFeeIdx lL pd).ty == ETy.add) = false := by
+          rw [fixFeeIdx_ty, hty]; simpa using ha
+        have hl : (fixFeeIdx lL pd).logIndex = lL.logIndex := by
+          by_cases hf : u.ty = .feeUpd
+          · apply fixFeeIdx_idx lL pd (by rw [hty, hf])
+            rw [hidx]
             rcases hli with hli | ⟨_, h0⟩
-            · simp only; rw [hli, h.lIdx]
-            · simp only [beq_self_eq_true, Bool.true_and, Bool.and_eq_true, beq_iff_eq, decide_eq_true_eq,
-                not_and, Nat.not_lt, Nat.le_zero_eq] at hc
-              simp only; rw [h0]; exact (hc h0).symm
+            · left; rw [hli, h.lIdx]
+            · right; exact h0
+          · rw [fixFeeIdx_not_fee lL pd (by rw [hty]; exact hf), hidx]
+            rcases hli with hli | ⟨hf', _⟩
+            · rw [hli, h.lIdx]
+            · exact absurd hf' hf
+        simp only [hl, bne_self_eq_false, Bool.false_eq_true, if_false, hna]
         split
-        · rename_i hne
-          simp only [bne_iff_ne, ne_eq] at hne
-          exact absurd hidx hne
-        · have hty' : (if (({ ty := ETy.feeUpd, amt := u.amt, logIndex := u.logIndex, addR := ph, rmvR := ph } : Entry).ty == ETy.feeUpd &&
-              ({ ty := ETy.feeUpd, amt := u.amt, logIndex := u.logIndex, addR := ph, rmvR := ph } : Entry).logIndex == 0 &&
-              decide (lL.logIndex > 0)) = true
-            then { ({ ty := ETy.feeUpd, amt := u.amt, logIndex := u.logIndex, addR := ph, rmvR := ph } : Entry) with logIndex := lL.logIndex }
-            else ({ ty := ETy.feeUpd, amt := u.amt, logIndex := u.logIndex, addR := ph, rmvR := ph } : Entry)).ty = .feeUpd := by
-            split <;> rfl
-          simp only [hty']
-          exact ⟨_, _, rfl, s2_snoc_nonadd h u _ (by rw [hty]; decide) rfl rfl⟩
-      | settle =>
-        have hp : (incomingIdx d.lc).contains u.parent = true := by
-          rcases hres with hres | hres
-          · simp [isResTy, hty] at hres
-          · exact hres
-        have ha := base_hasAddR d hp
-        rw [← h.rEntries] at ha
-        obtain ⟨og, hog⟩ := lookup_of_hasAdd ha
-        have hl : u.logIndex = lL.logIndex := by
-          rcases hli with hli | ⟨hf, _⟩
-          · rw [hli, h.lIdx]
-          · rw [hty] at hf; cases hf
-        simp only [hog, resOf, show (ETy.settle == ETy.feeUpd) = false from rfl, Bool.false_and, if_false,
-          hl, bne_self_eq_false]
-        exact ⟨_, _, rfl, s2_snoc_nonadd h u _ (by rw [hty]; decide) rfl rfl⟩
-      | fail =>
-        have hp : (incomingIdx d.lc).contains u.parent = true := by
-          rcases hres with hres | hres
-          · simp [isResTy, hty] at hres
-          · exact hres
-        have ha := base_hasAddR d hp
-        rw [← h.rEntries] at ha
-        obtain ⟨og, hog⟩ := lookup_of_hasAdd ha
-        have hl : u.logIndex = lL.logIndex := by
-          rcases hli with hli | ⟨hf, _⟩
-          · rw [hli, h.lIdx]
-          · rw [hty] at hf; cases hf
-        simp only [hog, resOf, show (ETy.fail == ETy.feeUpd) = false from rfl, Bool.false_and, if_false,
-          hl, bne_self_eq_false]
-        exact ⟨_, _, rfl, s2_snoc_nonadd h u _ (by rw [hty]; decide) rfl rfl⟩
-      | malformed =>
-        have hp : (incomingIdx d.lc).contains u.parent = true := by
-          rcases hres with hres | hres
-          · simp [isResTy, hty] at hres
-          · exact hres
-        have ha := base_hasAddR d hp
-        rw [← h.rEntries] at ha
-        obtain ⟨og, hog⟩ := lookup_of_hasAdd ha
-        have hl : u.logIndex = lL.logIndex := by
-          rcases hli with hli | ⟨hf, _⟩
-          · rw [hli, h.lIdx]
-          · rw [hty] at hf; cases hf
-        simp only [hog, resOf, show (ETy.malformed == ETy.feeUpd) = false from rfl, Bool.false_and, if_false,
-          hl, bne_self_eq_false]
-        exact ⟨_, _, rfl, s2_snoc_nonadd h u _ (by rw [hty]; decide) rfl rfl⟩
+        · exact ⟨_, _, rfl, s2_snoc_nonadd h u _ ha rfl rfl⟩
+        · exact ⟨_, _, rfl, s2_snoc_nonadd h u _ ha rfl rfl⟩
     obtain ⟨l1, r1, e1, h1⟩ := hstep
     simp only [List.foldl_cons, e1]
     have hrest' : pendOK (incomingIdx d.lc) (d.rc.cm.ourMsg + (done ++ [u]).length)
         (d.rc.cm.ourHtlc + addCount (done ++ [u])) r = true := by
       have e1 : d.rc.cm.ourMsg + (done ++ [u]).length = d.rc.cm.ourMsg + done.length + 1 := by simp; omega
       have e2 : d.rc.cm.ourHtlc + addCount (done ++ [u]) =
-          (if (u.ty == ETy.add) = true then d.rc.cm.ourHtlc + addCount done + 1 else d.rc.cm.ourHtlc + addCount done) := by
-        simp only [addCount, List.filter_append, List.filter_cons, List.filter_nil, List.length_append]
+          (if u.ty = ETy.add then d.rc.cm.ourHtlc + addCount done + 1 else d.rc.cm.ourHtlc + addCount done) := by
+        simp only [addCount, List.filter_append, List.filter_cons, List.filter_nil, List.length_append, beq_iff_eq]
         split <;> simp <;> omega
       rw [e1, e2]; exact hrest
     obtain ⟨l2, r2, e2, h2⟩ := ih (done ++ [u]) l1 r1 h1 hrest'
@@ -303,52 +283,45 @@ structure S3 (d : Disk) (lL lR : Log) : Prop where
   rIdx : lR.logIndex = d.lc.cm.theirMsg
   lAdds : ∀ i, (hasAdd (restoreBaseLogs d).1.entries i ∨ (pendAddIdx d).contains i = true) → hasAdd lL.entries i
 
+theorem uaPd_ok (lh : Nat) (lL : Log) (u : Entry)
+    (hres : isResTy u.ty = true → hasAdd lL.entries u.parent) :
+    ∃ pd, uaPd lh lL u = .ok pd ∧ pd.logIndex = u.logIndex := by
+  unfold uaPd
+  by_cases ha : u.ty = .add
+  · simp only [ha, beq_self_eq_true, if_true]
+    exact ⟨_, rfl, rfl⟩
+  · have h1 : (u.ty == ETy.add) = false := by simpa using ha
+    simp only [h1, Bool.false_eq_true, if_false]
+    by_cases hf : u.ty = .feeUpd
+    · simp only [hf, beq_self_eq_true, if_true]
+      exact ⟨_, rfl, rfl⟩
+    · have h2 : (u.ty == ETy.feeUpd) = false := by simpa using hf
+      obtain ⟨og, hog⟩ := lookup_of_hasAdd (hres ((isResTy_iff _).2 ⟨ha, hf⟩))
+      simp only [h2, Bool.false_eq_true, if_false, hog]
+      exact ⟨_, rfl, rfl⟩
+
 theorem uaStep_ok (d : Disk) (lh : Nat) (pend : Option Commit) {lL lR : Log} (h : S3 d lL lR) (u : Entry)
     (hu : (decide (u.logIndex < d.lc.cm.theirMsg) &&
       (!isResTy u.ty || (outgoingIdx d.rc).contains u.parent || (pendAddIdx d).contains u.parent)) = true) :
     ∃ lL' lR', restoreUaStep lh pend (.ok (lL, lR)) u = .ok (lL', lR') ∧ S3 d lL' lR' := by
   simp only [Bool.and_eq_true, decide_eq_true_eq, Bool.or_eq_true, Bool.not_eq_true'] at hu
   obtain ⟨hlt, hres⟩ := hu
-  have hlt' : ¬ (u.logIndex ≥ lR.logIndex) := by rw [h.rIdx]; omega
+  have hres' : isResTy u.ty = true → hasAdd lL.entries u.parent := by
+    intro hr
+    apply h.lAdds
+    rcases hres with (hres | hres) | hres
+    · rw [hr] at hres; cases hres
+    · exact Or.inl (base_hasAddL d hres)
+    · exact Or.inr hres
+  obtain ⟨pd, hpd, hidx⟩ := uaPd_ok lh lL u hres'
+  have hlt' : ¬ (pd.logIndex ≥ lR.logIndex) := by rw [hidx, h.rIdx]; omega
   unfold restoreUaStep
-  simp only
-  cases hty : u.ty with
-  | add =>
-    simp only [hlt', if_false, Entry.isAdd, hty, beq_self_eq_true, if_true]
-    exact ⟨_, _, rfl, h⟩
-  | feeUpd =>
-    simp only [hlt', if_false, Entry.isAdd, show (ETy.feeUpd == ETy.add) = false from rfl]
-    refine ⟨_, _, rfl, ⟨h.rIdx, h.lAdds⟩⟩
-  | settle =>
-    have ha : hasAdd lL.entries u.parent := by
-      apply h.lAdds
-      rcases hres with (hres | hres) | hres
-      · simp [isResTy, hty] at hres
-      · exact Or.inl (base_hasAddL d hres)
-      · exact Or.inr hres
-    obtain ⟨og, hog⟩ := lookup_of_hasAdd ha
-    simp only [hog, resOf, hlt', if_false, Entry.isAdd, show (ETy.settle == ETy.add) = false from rfl]
-    exact ⟨_, _, rfl, ⟨h.rIdx, h.lAdds⟩⟩
-  | fail =>
-    have ha : hasAdd lL.entries u.parent := by
-      apply h.lAdds
-      rcases hres with (hres | hres) | hres
-      · simp [isResTy, hty] at hres
-      · exact Or.inl (base_hasAddL d hres)
-      · exact Or.inr hres
-    obtain ⟨og, hog⟩ := lookup_of_hasAdd ha
-    simp only [hog, resOf, hlt', if_false, Entry.isAdd, show (ETy.fail == ETy.add) = false from rfl]
-    exact ⟨_, _, rfl, ⟨h.rIdx, h.lAdds⟩⟩
-  | malformed =>
-    have ha : hasAdd lL.entries u.parent := by
-      apply h.lAdds
-      rcases hres with (hres | hres) | hres
-      · simp [isResTy, hty] at hres
-      · exact Or.inl (base_hasAddL d hres)
-      · exact Or.inr hres
-    obtain ⟨og, hog⟩ := lookup_of_hasAdd ha
-    simp only [hog, resOf, hlt', if_false, Entry.isAdd, show (ETy.malformed == ETy.add) = false from rfl]
-    exact ⟨_, _, rfl, ⟨h.rIdx, h.lAdds⟩⟩
+  simp only [hpd, hlt', if_false]
+  split
+  · exact ⟨_, _, rfl, h⟩
+  · split
+    · exact ⟨_, _, rfl, ⟨h.rIdx, h.lAdds⟩⟩
+    · exact ⟨_, _, rfl, ⟨h.rIdx, h.lAdds⟩⟩
 
 theorem uaFold_ok (d : Disk) (lh : Nat) (pend : Option Commit) (us : List Entry) {lL lR : Log} (h : S3 d lL lR)
     (hu : us.all (fun u => decide (u.logIndex < d.lc.cm.theirMsg) &&
@@ -395,8 +368,9 @@ theorem restoreLogs_ok_of_wf (d : Disk) (h : DiskWF d) : ∃ p, restoreLogs d = 
   cases hp : d.pend with
   | none =>
     simp only [pendUpdates, hp, List.foldl_nil, Except.ok.injEq, Prod.mk.injEq] at e2
-    simp only [hp, Option.map_none] at e3
-    rw [← e3, e2.1, e2.2]
+    obtain ⟨rfl, rfl⟩ := e2
+    simp only [hp, Option.map_none] at e3 ⊢
+    exact e3
   | some p =>
     simp only [pendUpdates, hp, Option.map_some, Option.getD_some] at e2
     simp only [hp, Option.map_some] at e3
